@@ -14,7 +14,7 @@ RULE = ('random circuits through the public API (Verilog-reader and bench-reader
         'non-trivial = at least 2 ops and at least one captured 0 and one captured 1; cycle_tie: sequential circuits (0-4 state elements, '
         'flip-flop without outputs, open data pin, toggle flip-flop) x m in {2,4,8} x {strip_forks} x {c_reuse} x both code paths x k=0..5, random '
         's[0]/s[1] in all planes: real pippi/poppo/ppio_s_locs, pippi/poppo_c_locs and s[0], s[1] after LogicSim.cycle(k) = Lean model cycleKA '
-        '(Model/Cycle.lean), certificates stateOutsB/zeroCapB/capDriversB/forksOKB on the real tables')
+        '(Model/Cycle.lean), certificates zeroCapB/capDriversB/forksOKB on the real tables')
 
 
 def theorems():
@@ -168,7 +168,7 @@ def seq_circuit(rng, n_gates=None):
     c = circ.rand_circuit(rng, n_gates=n_gates if n_gates is not None else rng.randint(1, 20),
                           n_ff=rng.choice([0, 1, 1, 2, 3, 4]))
     forks = [n for n in c.nodes if n.kind == '__fork__']
-    if rng.random() < 0.25 and forks:            # state element nobody reads: no (P)PI slot, c_locs = -1
+    if rng.random() < 0.25 and forks:            # state element nobody reads: no (P)PI slot (c_locs = -1), skipped by s_to_c
         ff = Node(c, 'ffx', rng.choice(['DFF', 'LATCH']))
         Line(c, rng.choice(forks), (ff, 0))
     if rng.random() < 0.25:                      # open data pin, output observed at a port
@@ -231,12 +231,11 @@ def eval_cycle_case(case):
                                           f"cyclecert {order} {','.join(str(int(x)) for x in ls.c_locs)} {circ.dump_net(c)}",
                                           f"net {circ.dump_net(c)}", f"forkcert {order}"])
     if not fk.startswith('forks=true'): return False, {'forkcert': fk[:60]}, {'forkcert': 'forks=true'}   # hypothesis of cycle_strip_irrelevant
-    # side conditions of C01.cycle_on_memory on the REAL c_locs: `zero` (state element with open data pin captures the row of the
-    # constant slot) must hold on every circuit; `outs` fails exactly for circuits with a state element without output pin list;
-    # `cap` (C01.cycle_strip_irrelevant: the real order contains the driver of every captured line) must hold on every circuit
+    # side condition of C01.cycle_on_memory on the REAL c_locs: `zero` (state element with open data pin captures the row of the
+    # constant slot); of C01.cycle_strip_irrelevant: `cap` (the real order contains the driver of every captured line) — both must
+    # hold on every circuit
     case['_mem_thm'] = cert
     if 'zero=1' not in cert or 'cap=1' not in cert: return False, {'cyclecert': cert}, {'cyclecert': 'zero=1 cap=1'}
-    if ('outs=1' in cert) != all(len(n.outs) > 0 for n in c.s_nodes[len(c.io_nodes):]): return False, {'cyclecert': cert}, 'outs flag'
     parts = ans.split(';')
     if len(parts) != 5: return False, {'driver': ans[:200]}, None
     ints = lambda t: [int(x) for x in t.split(',') if x != '']
